@@ -19,14 +19,14 @@ import CpModel.Gen.C19Tables
   generated from the running CPython), `int(str)`, ISO-8859-1 both ways, `dict` last-wins / `.get`,
   `urllib.request.parse_http_list` and `parse_keqv_list` (source hash pinned by the harness).
 
-  The model mirrors the code *with the three proposed C19 repairs applied* (proposed_fixes/C19-*.diff):
-  `IndexError` of `parse_keqv_list` is answered with 400, an empty `qop=""` is an unsupported qop (400), and
-  `algorithm=MD5-sess` is recognised (the unrepaired code upper-cases the value and then compares it with the
-  mixed-case spelling, so every MD5-sess header is rejected with 400).  It mirrors the *unrepaired* behaviour for
+  The model mirrors the code as repaired in /repo (fix commits 3d94f29, 23fae8d, a02f901): `IndexError` of
+  `parse_keqv_list` is answered with 400, an empty `qop=""` is an unsupported qop (400), and `algorithm=MD5-sess`
+  is recognised (the original code upper-cased the value and then compared it with the mixed-case spelling, so
+  every MD5-sess header was rejected with 400).  It mirrors the *unrepaired* behaviour for
   `qop=auth-int`, where `H(entity_body)` is applied to the `RequestBody` object: `TypeError`, i.e. 500 (finding F21).
 
   Not modelled: RFC 2047 decoding and `strip()` of the header value in `Request.process_headers` (the model starts
-  at `request.headers.get('authorization')`), HTTPError → page rendering, `debug` logging, `get_ha1_file_htdigest`.
+  at `request.headers.get('authorization')`), HTTPError → page rendering, `debug` logging, `get_ha1_file_htdigest` on files with malformed lines.
 -/
 namespace CpModel.Auth
 open CpModel.Gen.C19
@@ -373,6 +373,13 @@ inductive Store
   | plain (d : List (Str × Str))
   /-- `get_ha1_dict({user: HA1})` -/
   | ha1 (d : List (Str × Str))
+  /-- `get_ha1_file_htdigest(file)` for a file of well-formed `user:realm:HA1` lines -/
+  | htdigest (lines : List (Str × Str × Str))
+
+/-- the loop of `get_ha1_file_htdigest`: the first line whose user *and* realm match -/
+def htLookup (username realm : Str) : List (Str × Str × Str) → Option Str
+  | [] => none
+  | (u, r, h) :: rest => if u = username ∧ r = realm then some h else htLookup username realm rest
 
 structure DigestCfg where
   realm : Str
@@ -387,6 +394,7 @@ def getHa1 (P : Prims) (cfg : DigestCfg) (username : Str) : Option Str :=
     | some (c :: cs) => some (P.H (colon username (colon cfg.realm (c :: cs))))
     | _ => none
   | .ha1 d => dictGet username d
+  | .htdigest lines => htLookup username cfg.realm lines
 
 /-- `www_authenticate(realm, key, stale=…, accept_charset=…)` at `int(time.time()) = now` -/
 def digestChallenge (P : Prims) (cfg : DigestCfg) (now : Int) (stale : Bool) : Str :=
